@@ -196,9 +196,11 @@ class SimulatedExecutionEnvironment(ExecutionEnvironment):
             zip(action.action.parameters, action.actual_parameters)
         )
         if isinstance(action.action, up.model.contingent.sensing_action.SensingAction):
+            se = up.model.walkers.StateEvaluator(self._deterministic_problem)
             for f in action.action.observed_fluents:
                 f_exp = f.substitute(subs)
-                res[f_exp] = self._state.get_value(f_exp)
+                # NOTE a fluent among the parameters of the observed one is read first
+                res[f_exp] = se.evaluate(f_exp, self._state)
         return res
 
     def is_goal_reached(self) -> bool:
